@@ -8,8 +8,12 @@
       function the driver actually calls ([Model/Driver.v]: [OImage],
       [OPreimage]); the conclusion additionally says that the threshold is
       the same before and after.  Same vocabulary as [Properties/C13.v]
-      ([C13_definitions]).  Only statements closed by [exact]; proofs live in
-      [Proofs/PubCorrect.v]. *)
+      ([C13_definitions]).  As in [Properties/C13.v], the theorems that
+      conclude an [Ok] result assume [max_nodes s = None] (no node limit,
+      the default; with a limit the call may also raise [RuntimeError] at a
+      full table); [C13_image_pub_correct_whenever_it_returns] is given the
+      [Ok] result and has no such hypothesis.  Only statements closed by
+      [exact]; proofs live in [Proofs/PubCorrect.v]. *)
 From DD Require Import PubCorrect.
 Local Open Scope string_scope.
 
@@ -25,7 +29,7 @@ Proof. exact (conj (fun _ _ _ _ _ _ _ => eq_refl) (conj (fun _ _ _ _ _ _ _ => eq
 
 (** ** [preimage], any threshold *)
 Theorem C13_preimage_pub_correct s trans target byname rn qbyname qvars fa q rnl m r s' :
-  Inv s → valid s trans → valid s target →
+  Inv s → max_nodes s = None → valid s trans → valid s target →
   fst (map_to_level_set qbyname qvars s) = Ok q →
   fst (map_rename byname rn s) = Ok rnl → m = list_to_map (reverse rnl) →
   no_overlap m = true →
@@ -44,7 +48,7 @@ Qed.
 
 Theorem C13_preimage_pub_correct_monotone
     s trans target byname rn qbyname qvars fa q rnl m r s' :
-  Inv s → valid s trans → valid s target →
+  Inv s → max_nodes s = None → valid s trans → valid s target →
   fst (map_to_level_set qbyname qvars s) = Ok q →
   fst (map_rename byname rn s) = Ok rnl → m = list_to_map (reverse rnl) →
   no_overlap m = true →
@@ -59,7 +63,7 @@ Qed.
 
 (** ** [image], any threshold *)
 Theorem C13_image_pub_correct s trans source byname rn qbyname qvars fa q rnl m r s' :
-  Inv s → valid s trans → valid s source →
+  Inv s → max_nodes s = None → valid s trans → valid s source →
   fst (map_to_level_set qbyname qvars s) = Ok q →
   fst (map_rename byname rn s) = Ok rnl → m = list_to_map (reverse rnl) →
   no_overlap m = true →
@@ -91,7 +95,7 @@ Proof.
 Qed.
 
 Theorem C13_image_pub_correct_checks s trans source byname rn qbyname qvars fa q rnl m r s' :
-  Inv s → valid s trans → valid s source →
+  Inv s → max_nodes s = None → valid s trans → valid s source →
   fst (map_to_level_set qbyname qvars s) = Ok q →
   fst (map_rename byname rn s) = Ok rnl → m = list_to_map (reverse rnl) →
   (∀ k k', m !! k = Some k' → k' < nvars s) →
@@ -126,7 +130,7 @@ Example C13_pub_nonvacuous :
   let im := image_pub (-12) (-13) true [(1, 0); (3, 2)] true [0; 2] false s in
   let pre := preimage_pub (-12) (-14) true [(0, 1); (2, 3)] true [1; 3] false s in
   mem (-12) s = true ∧ mem (-13) s = true ∧ mem (-14) s = true ∧
-  last_len s = Some 1 ∧ len s = 15 ∧ rctx s = false ∧
+  last_len s = Some 1 ∧ max_nodes s = None ∧ len s = 15 ∧ rctx s = false ∧
   match fst (map_to_level_set true [0; 2] s) with
   | Ok q => Some (elements q) | Err _ => None end = Some [0; 2] ∧
   fst (map_rename true [(1, 0); (3, 2)] s) = Ok [(1, 0); (3, 2)] ∧
